@@ -238,7 +238,7 @@ func (s *session) compare(cur tla.State, a string, actor int) error {
 				}
 			}
 			if (a == "RRecvKey" || a == "IRecvKey") && actor == x && r.r.KeyMade && !r.r.EllswiftOK {
-				s.violation("ellswift:encode-decode", "XSwiftEC(XSwiftECInv(u, x)) differs from x for a freshly created key")
+				s.violation("ellswift:encode-decode", "EllswiftECDHXOnly(u || XSwiftECInv(u, x), priv=1) differs from x for a freshly created key")
 				return s.refGuard()
 			}
 		}
